@@ -25,7 +25,14 @@ import (
 	"time"
 )
 
-const repoDir = "/repo"
+// repoDir is the tree under test: /repo's working tree. VERIF_REPO overrides it for background runs on
+// a snapshot and for runs against a seeded change in a scratch worktree (never for registered commands).
+var repoDir = func() string {
+	if d := os.Getenv("VERIF_REPO"); d != "" {
+		return d
+	}
+	return "/repo"
+}()
 
 // verifDir is where the framework lives: /verif, or a snapshot copy of it (VERIF_DIR, set by ./check).
 var verifDir = func() string {
@@ -213,8 +220,11 @@ func ensureWorker(race bool) (string, string) {
 		}
 	}
 	sort.Slice(ds, func(i, j int) bool { return ds[i].t.After(ds[j].t) })
-	for i := 3; i < len(ds); i++ {
-		os.RemoveAll(ds[i].p)
+	for i := 4; i < len(ds); i++ {
+		// never evict a build that may still be in use by a concurrent check
+		if time.Since(ds[i].t) > 45*time.Minute {
+			os.RemoveAll(ds[i].p)
+		}
 	}
 	return bin, repoKey
 }
